@@ -27,12 +27,14 @@ def main():
     subprocess.run(f"git -C /repo worktree add -q --detach {wt} HEAD", shell=True, check=True)
     try:
         subprocess.run(f"git -C {wt} apply {d / 'patch.diff'}", shell=True, check=True)
-        env = dict(os.environ, VERIF_REPO=str(wt), OMP_NUM_THREADS="1", MKL_NUM_THREADS="1")
+        coq = Path(f"/tmp/vrscoq-{os.getpid()}")
+        subprocess.run(f"cp -a {V / 'coq'} {coq}; rm -f {coq}/.build.lock", shell=True, check=True)
+        env = dict(os.environ, VERIF_REPO=str(wt), VERIF_COQ=str(coq), OMP_NUM_THREADS="1", MKL_NUM_THREADS="1")
         env.pop("PYTHONPATH", None)
         r = subprocess.run(f"cd {V} && /venv/bin/python harness/vcheck.py {prop} --tier {a.tier}", shell=True,
                            capture_output=True, text=True, env=env)
     finally:
-        subprocess.run(f"git -C /repo worktree remove --force {wt}", shell=True)
+        subprocess.run(f"git -C /repo worktree remove --force {wt}; rm -rf /tmp/vrscoq-{os.getpid()}", shell=True)
     lines = [l for l in r.stdout.splitlines() if l.startswith(("VIOLATION", "KNOWN-FINDING", "["))]
     was_caught = meta.get("caught")
     meta["check_exit"] = r.returncode
